@@ -31,6 +31,21 @@
 //        after=<trace>         the reset interpreter stepped without events (results with configuration,
 //                              repetitions removed),   fresh=<trace>  a new interpreter of the same document
 //        end
+//
+//   destroyrace <engine> <kind> <hold> <alref> <delay_ms> <hold_ms>
+//        destruction against the timer thread (model: coq/theories/ResetRaceDestroy.v).  The interpreter (on the
+//        heap, one handle) is destroyed on a second thread while a delayed send of kind <kind> is
+//        hold = none      still pending
+//               unlocked  under way: its callback is held at delay.callback.unlocked (past its critical section)
+//               locked    under way: its callback is held at interp.eventReady.locked (inside eventReady, holding _delayMutex)
+//        The callback is released 20 ms after the destructor body has finished (point interp.destroy.done,
+//        patches/C10-destroy-hooks.diff) or <hold_ms> after the destruction began, whichever comes first.
+//        alref = 1: getActionLanguage() was called before, i.e. the ActionLanguage copy inside the interpreter holds a
+//        second reference to the delayed queue.
+//   answer: pre=ok|nosend  done_seen=0|1 (0: tree without the point)  released_by=done|timeout|-
+//           after_done=<points the timer thread passed after interp.destroy.done>|-   (non-empty: the callback worked on
+//           the object after its destructor body had finished -> members it uses are destroyed or about to be)
+//           destroyed=1  end          (HANG / CRASH:sigN appended by the watchdog)
 #include "uscxml/config.h"
 #include "uscxml/Common.h"
 #include "uscxml/Interpreter.h"
@@ -90,7 +105,51 @@ bool ends_with(const char* s, const char* suf) {
 	return a >= b && strcmp(s + a - b, suf) == 0;
 }
 
+// ---- destruction: second controller state
+thread_local bool tl_destroying = false;
+std::atomic<bool> g_dmode(false);
+std::string g_dhold_point;                // point at which the timer thread is held ("" = none)
+std::atomic<int> g_dhold_arrived(0);
+std::atomic<bool> g_done_seen(false), g_destroy_started(false);
+clk::time_point g_done_time, g_destroy_time;
+int g_dhold_ms = 60;
+std::string g_released_by = "-";
+std::vector<std::string> g_after_done;    // timer-thread arrivals after interp.destroy.done
+
+void destroy_point(const char* name) {
+	if (tl_destroying) {
+		if (strcmp(name, "interp.destroy.done") == 0) {
+			std::lock_guard<std::mutex> lk(g_m);
+			g_done_time = clk::now();
+			g_done_seen = true;
+		}
+		return;
+	}
+	bool cb_point = strncmp(name, "delay.callback.", 15) == 0 || strncmp(name, "interp.eventReady.", 18) == 0;
+	if (!cb_point) return;
+	if (g_done_seen.load()) {
+		std::lock_guard<std::mutex> lk(g_m);
+		g_after_done.push_back(name);
+	}
+	if (strcmp(name, "delay.callback.delivered") == 0) g_delivered++;
+	if (!g_dhold_point.empty() && g_dhold_point == name && g_dhold_arrived.load() == 0) {
+		g_dhold_arrived++;
+		clk::time_point limit = clk::now() + std::chrono::milliseconds(4000);
+		for (;;) {
+			clk::time_point now = clk::now();
+			if (now > limit) { std::lock_guard<std::mutex> lk(g_m); g_released_by = "limit"; break; }
+			{
+				std::lock_guard<std::mutex> lk(g_m);
+				if (g_done_seen.load() && now >= g_done_time + std::chrono::milliseconds(20)) { g_released_by = "done"; break; }
+				if (g_destroy_started.load() && now >= g_destroy_time + std::chrono::milliseconds(g_dhold_ms)) { g_released_by = "timeout"; break; }
+			}
+			std::this_thread::sleep_for(std::chrono::microseconds(200));
+		}
+	}
+}
+
 void rr_point(const char* name) {
+	if (g_dmode.load()) { destroy_point(name); return; }
 	if (tl_resetting) {
 		bool is_enter = ends_with(name, ".reset.enter");
 		bool is_done = ends_with(name, ".reset.done");
@@ -290,6 +349,66 @@ void child_resetrace(const std::vector<std::string>& a) {
 	// the interpreters are not destroyed: tear-down is the subject of `teardown`, the child exits
 }
 
+void child_destroyrace(const std::vector<std::string>& a) {
+	const std::string& engine = a[1];
+	const std::string& kind = a[2];
+	const std::string& hold = a[3];
+	bool alref = a[4] == "1";
+	int delay_ms = atoi(a[5].c_str());
+	g_dhold_ms = atoi(a[6].c_str());
+	std::string xml = chart(kind, delay_ms);
+	if (hold == "unlocked") g_dhold_point = "delay.callback.unlocked";
+	else if (hold == "locked") g_dhold_point = "interp.eventReady.locked";
+	g_dmode = true;
+	uscxml_verif_point = rr_point;
+	Interpreter* ip = new Interpreter(make_interpreter(engine, xml));
+	for (int i = 0; i < 30; i++) {
+		InterpreterState r = ip->step(0);
+		if (r == USCXML_IDLE || r == USCXML_FINISHED) break;
+	}
+	if (alref) (void)ip->getActionLanguage();
+	Event go;
+	go.name = "go";
+	ip->receive(go);
+	for (int i = 0; i < 30; i++) {
+		InterpreterState r = ip->step(0);
+		if (r == USCXML_IDLE || r == USCXML_FINISHED) break;
+	}
+	std::string pre = "ok";
+	if (!g_dhold_point.empty()) {
+		clk::time_point dl = clk::now() + std::chrono::milliseconds(delay_ms + 2000);
+		while (g_dhold_arrived.load() == 0 && clk::now() < dl)
+			std::this_thread::sleep_for(std::chrono::microseconds(200));
+		if (g_dhold_arrived.load() == 0) pre = "nosend";
+	}
+	emit("pre=" + pre);
+	std::atomic<bool> destroyed(false);
+	std::thread t([&] {
+		tl_destroying = true;
+		{
+			std::lock_guard<std::mutex> lk(g_m);
+			g_destroy_time = clk::now();
+			g_destroy_started = true;
+		}
+		delete ip;
+		destroyed = true;
+	});
+	t.join();       // a destruction that does not return is HANG (watchdog of the parent)
+	// let a callback that is still running finish before the verdict is read
+	std::this_thread::sleep_for(std::chrono::milliseconds(5));
+	std::string after;
+	{
+		std::lock_guard<std::mutex> lk(g_m);
+		for (auto& p : g_after_done) { if (!after.empty()) after += ","; after += p; }
+		emit(std::string("done_seen=") + (g_done_seen.load() ? "1" : "0"));
+		emit("released_by=" + g_released_by);
+	}
+	emit("after_done=" + (after.empty() ? std::string("-") : after));
+	emit("fired=" + std::to_string(g_delivered.load()));
+	emit(std::string("destroyed=") + (destroyed.load() ? "1" : "0"));
+	emit("end");
+}
+
 std::string run_child(void (*body)(const std::vector<std::string>&), const std::vector<std::string>& a, int watchdog_ms) {
 	int fds[2];
 	if (pipe(fds) != 0) return "ERR pipe";
@@ -340,6 +459,12 @@ std::string cmd_resetrace(const std::vector<std::string>& a) {
 	return run_child(child_resetrace, a, 8000);
 }
 
+std::string cmd_destroyrace(const std::vector<std::string>& a) {
+	if (a.size() < 7) return "ERR usage: destroyrace <engine> <ext|int> <none|unlocked|locked> <alref 0|1> <delay_ms> <hold_ms>";
+	return run_child(child_destroyrace, a, 8000);
+}
+
 }  // namespace vd_resetrace
 
 VD_REGISTER(resetrace, vd_resetrace::cmd_resetrace)
+VD_REGISTER(destroyrace, vd_resetrace::cmd_destroyrace)
